@@ -293,3 +293,55 @@ class E1Prop(Prop):
                             f = g
                             changed = True
         return ops
+
+
+class ActorCasesMixin:
+    """adds `kind: 'actors'` cases (submission prefix + script for the REAL driver loops of harness/batchdb/actors.py) to an E1 property.
+    The subclass sets actor_share, actor_flavour and implements actor_checks() -> (step_checks, final_checks)."""
+    actor_share = 0.3
+    actor_flavour = 'c39'
+
+    def cases(self, rng, n, tier):
+        for c in super().cases(rng, n, tier):
+            if rng.random() < self.actor_share:
+                yield gen.submission(rng, self.actor_flavour)
+            else:
+                yield c
+
+    @staticmethod
+    def key(c):
+        return json.dumps([c['ops'], c.get('actors'), c.get('aseed')]) if c.get('kind') == 'actors' else json.dumps(c['ops'])
+
+    def run_case(self, c):
+        if c.get('kind') != 'actors':
+            return super().run_case(c)
+        from . import actors
+        step_checks, final_checks = self.actor_checks()
+        r = actors.run_actor_case(getattr(self, 'repo', None), c, step_checks, final_checks)
+        r.tags.append('kind:actors')
+        return r
+
+    def oracle(self, c, out):
+        if c.get('kind') != 'actors':
+            return super().oracle(c, out)
+        if out and out[0].startswith('IMPL-EXC'):
+            return out[0]
+        r = self._get(c)
+        return None if r.failure is None else f'[{r.failure[1]}] real driver loops: {r.failure[2]}'
+
+    def classify(self, c, out):
+        if c.get('kind') != 'actors':
+            return super().classify(c, out)
+        r = self._get(c)
+        tags = sorted(set(r.tags)) + sorted({'actor:' + a[0] for a in c.get('actors', [])})
+        return (self.key(c) if 'scheduled-by-real-scheduler' in r.tags or 'job-private-path' in r.tags else None, tags)
+
+    def shrink(self, c, fails):
+        if c.get('kind') != 'actors':
+            return super().shrink(c, fails)
+        cur = dict(c)
+        if not fails(cur):
+            return c
+        if len(cur['actors']) > 1:
+            cur['actors'] = generic_shrink_list(cur['actors'], lambda a: fails({**cur, 'actors': a}))
+        return cur
